@@ -1432,6 +1432,8 @@ class GenEval(AutoEvaluator):
         earlier store of the iteration may overlap the cell in a way the engine cannot tell"""
         if not self.iter_stores or not isinstance(col, F.Rat) or not isinstance(rows, F.Rat) or not isinstance(root, F.Rat):
             return None
+        if is_all(col):
+            return None                 # all columns: a view of the array (`D = d[kdof]`, `Force[kdof]`), nothing is read yet
         for r0, rw0, c0, v0 in reversed(self.iter_stores):
             if r0 is None:
                 return Unknown("a store of this iteration the engine cannot place may overlap the cell that is read")
